@@ -656,3 +656,48 @@ Proof.
     + eapply IH; [apply money_inv_clear; exact Hi| |exact H].
       clear -Hw2. induction ops; simpl in *; auto. destruct Hw2. split; auto.
 Qed.
+
+(** * the genesis state of DESIGN section 5.2 (empty marketplace) satisfies the invariant *)
+
+Definition wf_genesis (g : genesis) : Prop :=
+  wf_cfg (g_cfg g) /\ (forall a c, (a, c) ∈ g_balances g -> a <> c_deposit (g_cfg g)).
+
+Lemma money_inv_init g : wf_genesis g -> money_inv (init g).
+Proof.
+  intros [Hwf Hb]. unfold init.
+  set (f := fun s '(a, (d, v)) => set_bal (s <| supply ::= fun c => coins_add c d v |>) a d (bal s a d + v)).
+  set (s0 := empty_state (g_cfg g) (g_params g)).
+  assert (Hfold : money_inv (fold_left f (g_balances g) s0) /\ cfg (fold_left f (g_balances g) s0) = g_cfg g /\
+                  deposits (fold_left f (g_balances g) s0) = ∅).
+  { assert (H0 : money_inv s0 /\ cfg s0 = g_cfg g /\ deposits s0 = ∅).
+    { split; [|split; reflexivity]. split; simpl; auto.
+      - intros d. unfold bal, dep_total. simpl. rewrite lookup_empty. simpl. rewrite amount_of_empty, msum_empty. reflexivity.
+      - split; apply map_Forall_empty.
+      - intros d. unfold bank_total. simpl. rewrite msum_empty, amount_of_empty. reflexivity. }
+    revert H0. generalize s0. clear s0.
+    assert (Hin : forall x, x ∈ g_balances g -> x.1 <> c_deposit (g_cfg g)) by (intros [a c] Hx; eapply Hb; eauto).
+    revert Hin. generalize (g_balances g). intros l. induction l as [|[a [d v]] l IH]; intros Hin s0 H0; [exact H0|].
+    simpl. apply IH; [intros x Hx; apply Hin; right; exact Hx|].
+    destruct H0 as ([Hc He Hp Ht] & Hcfg & Hdep).
+    assert (Ha : a <> c_deposit (g_cfg g)) by (apply (Hin (a, (d, v))); left).
+    split; [|split; [exact Hcfg|exact Hdep]].
+    split; simpl.
+    - exact Hc.
+    - intros d'. rewrite bal_set_bal. simpl. rewrite Hcfg.
+      case_bool_decide as E; [destruct E; congruence|].
+      unfold bal. simpl. rewrite <- Hcfg. exact (He d').
+    - exact Hp.
+    - intros d'. rewrite bank_total_set_bal. simpl. rewrite amount_of_coins_add.
+      unfold bank_total, bal. simpl. fold (bank_total s0 d'). fold (bal s0 a d). rewrite (Ht d').
+      case_bool_decide; lia. }
+  destruct Hfold as (Hi & Hc & Hd). destruct (g_mint g) as [[[mx mn] rc] inf].
+  money_updates (fold_left f (g_balances g) s0). exact Hi.
+Qed.
+
+(* a parameter set used by non-vacuity examples *)
+Definition g_params_dummy : params :=
+  {| p_prov_deposit := (1%N, 10); p_prov_share := 0; p_node_deposit := (1%N, 10); p_node_active := HOUR;
+     p_max_gb := ∅; p_min_gb := ∅; p_max_hr := ∅; p_min_hr := ∅;
+     p_max_sub_gb := 10; p_min_sub_gb := 1; p_max_sub_hr := 10; p_min_sub_hr := 1; p_node_share := 0;
+     p_sub_delay := 120; p_sess_delay := 120; p_sess_proof := false;
+     p_swap_enabled := true; p_swap_denom := 1%N; p_swap_approver := canon RAcc [9%N] |}.
